@@ -1,4 +1,6 @@
 import LunarVerif.Proofs.C01Flat
+import LunarVerif.Proofs.C01Atomic
+import LunarVerif.Proofs.C01Verdict
 /-!
 # C01 — Fixed-window quotas never admit more than their limit per window
 
@@ -31,6 +33,17 @@ theorem admitted_le_max (cfg : Cfg) (t0 : Nat) (sched : List Act) (k : Key) (c :
   have := ((SysInv.run cfg sched _ (SysInv.init cfg t0)).lvl k c hk).all w hw
   omega
 
+/-- A call is let through (verdict `true`) only after *every* quota of its chain — the quota itself
+    and each ancestor, in the group the request's headers select — admitted it; so the requests let
+    through are among the admissions bounded by `admitted_le_max` at each of these levels. -/
+theorem let_through_admitted_by_every_level (cfg : Cfg) (t0 : Nat) (sched : List Act)
+    (tid : Nat) (th : Thread) (r : Rid) (q : QId)
+    (hth : (Sys.run cfg (Sys.init t0) sched).threads[tid]? = some th)
+    (hv : LEv.verdict tid r q true ∈ (Sys.run cfg (Sys.init t0) sched).log) :
+    r = th.r ∧ q = th.q ∧
+    ∀ p ∈ chain cfg th.q, LEv.allowed (p.1, groupOf p.2 th.h) th.r true ∈ (Sys.run cfg (Sys.init t0) sched).log :=
+  (VInv.run cfg sched _ (VInv.init cfg t0)).ver tid th r q hth hv
+
 /-! ### Non-vacuity -/
 
 /-- Two quotas: parent 0 (max 1 per 2 s), child 1 (max 2 per 2 s).  Three limiter calls in flight,
@@ -45,6 +58,11 @@ def exSched : List Act :=
 /-- The parent level has two windows (starts 10 s and 12 s), one admission each = its max. -/
 example : tally (2 * nsPerSec) (0, 0) (Sys.run exCfg (Sys.init (10 * nsPerSec + 5)) exSched).log
     = [⟨12, 1, 1⟩, ⟨10, 1, 1⟩] := by decide
+
+/-- Threads 0 and 3 were let through, thread 2 was refused, thread 1 is still in flight. -/
+example : (Sys.run exCfg (Sys.init (10 * nsPerSec + 5)) exSched).threads.map (·.pc) =
+    [.done (some true), .allowed [(0, ⟨none, 1, 2 * nsPerSec, none⟩)], .done (some false), .done (some true)] := by
+  decide
 
 /-- The child level admitted two requests in its first window (= its max): request 2 was admitted by
     the child and is still in flight towards the parent's `Allowed` when the schedule ends. -/
@@ -62,6 +80,35 @@ theorem windows_spaced (cfg : Cfg) (t0 : Nat) (sched : List Act) (k : Key) (win 
 /-- The newest window of `exSched`'s parent level starts exactly one window length (2 s) after the first. -/
 example : windowsOf (2 * nsPerSec) (0, 0) (Sys.run exCfg (Sys.init (10 * nsPerSec + 5)) exSched).log = [10, 12] := by
   decide
+
+/-! ## API calls are schedules -/
+
+/-- An API call on an existing quota, spawned and run to completion with no other step in between,
+    has exactly the effect and the answer of the API-level model `apiStep` (which the driver runs and
+    the correspondence check compares with the real code). -/
+theorem api_call_is_atomic_schedule (cfg : Cfg) (s : Sys) (kind : Kind) (q : QId) (r : Rid) (h : Hdrs)
+    (hq : chain cfg q ≠ []) (n : Nat) (hn : 2 * (chain cfg q).length + 1 ≤ n) :
+    (Sys.run cfg s (.spawn kind q r h :: List.replicate n (.step s.threads.length))).st
+        = (apiStep cfg s.st ⟨kind, q, r, s.now, h⟩).1 ∧
+    (Sys.run cfg s (.spawn kind q r h :: List.replicate n (.step s.threads.length))).threads[s.threads.length]?
+        = some ⟨r, q, h, .done (apiStep cfg s.st ⟨kind, q, r, s.now, h⟩).2⟩ := by
+  have := atomic_call cfg s kind q r h hq n hn
+  exact ⟨this.1, this.2.1⟩
+
+/-- Every one-at-a-time run of API calls (existing quotas, non-decreasing instants) is the run of some
+    schedule: the theorems above about all schedules cover the API-level runs. -/
+theorem api_runs_are_schedules (cfg : Cfg) (t0 : Nat) (ops : List Op)
+    (hq : ∀ o ∈ ops, chain cfg o.q ≠ []) (hm : opsFrom t0 ops) :
+    ∃ sched : List Act, (Sys.run cfg (Sys.init t0) sched).st = apiFinal cfg St.init ops :=
+  api_run_is_schedule cfg ops (Sys.init t0) hq hm
+
+/-- The hypotheses are satisfiable (a limiter call on the child, then `Inc` / `Allowed` on the parent). -/
+example : (∀ o ∈ ([⟨.req, 1, 1, 5, []⟩, ⟨.inc, 0, 2, 5, []⟩, ⟨.allowed, 0, 2, 9, []⟩] : List Op), chain exCfg o.q ≠ []) ∧
+    opsFrom 3 [⟨.req, 1, 1, 5, []⟩, ⟨.inc, 0, 2, 5, []⟩, ⟨.allowed, 0, 2, 9, []⟩] := by
+  refine ⟨?_, by simp [opsFrom]⟩
+  intro o ho
+  simp only [List.mem_cons, List.mem_nil_iff, or_false] at ho
+  rcases ho with h | h | h <;> subst h <;> decide
 
 /-! ## API histories: the predicate the judge evaluates holds of every run of the model
 
